@@ -196,8 +196,16 @@ def execute(case, stats):
         if tlv.xor1(tlv.HEADER, k) in view:
             raise Discard("accidental plain header")
 
-    r = lib(BeaconConfig.from_bytes, data, allow=(ValueError,), what="BeaconConfig.from_bytes(guardrails payload)")
-    ctx = lambda: f"keylen={K} key={key[:16].hex()}... options={options} offset={off} container={container} fault={fault}"
+    # the key list given to the constructors is about the plain search (which finds nothing here): whatever it is, the
+    # protected configuration, its environmental key and the guard XOR byte are recovered alike
+    key_lists = [None, None, [b"\x69", b"\x2e", b"\x00"], [b"\x00"], [b"\x2e", b"\x69"], [b"\x69"]]
+    xk = key_lists[(K + len(options) + off + len(data)) % len(key_lists)]
+    if xk is None:
+        r = lib(BeaconConfig.from_bytes, data, allow=(ValueError,), what="BeaconConfig.from_bytes(guardrails payload)")
+    else:
+        stats.count("explicit_xor_keys")
+        r = lib(BeaconConfig.from_bytes, data, xor_keys=xk, allow=(ValueError,), what=f"BeaconConfig.from_bytes(guardrails payload, xor_keys={xk})")
+    ctx = lambda: f"keylen={K} key={key[:16].hex()}... options={options} offset={off} container={container} fault={fault} xor_keys={xk}"
     if fault is not None:
         if not isinstance(r, Raised):
             # a configuration was reported although the checksum cannot match
